@@ -268,6 +268,128 @@ func P4(rc *RC) {
 			}
 		}
 	}
+	// writes through a pointer that was handed to a callee: a fixpoint summary "callee writes
+	// through its parameter j" (direct store at an address rooted in the parameter, or the
+	// parameter passed on to a writing callee) turns `bump(allTypes)` into a write access of the
+	// global at the call site.
+	paramRoot := func(fn *ssa.Function, v ssa.Value) int {
+		for i := 0; i < 30; i++ {
+			switch x := v.(type) {
+			case *ssa.Parameter:
+				for k, pp := range fn.Params {
+					if pp == x {
+						return k
+					}
+				}
+				return -1
+			case *ssa.FieldAddr:
+				v = x.X
+			case *ssa.IndexAddr:
+				v = x.X
+			case *ssa.UnOp:
+				if x.Op != token.MUL {
+					return -1
+				}
+				v = x.X
+			case *ssa.Slice:
+				v = x.X
+			default:
+				return -1
+			}
+		}
+		return -1
+	}
+	writesParam := map[*ssa.Function]map[int]bool{}
+	mark := func(fn *ssa.Function, k int) bool {
+		if k < 0 {
+			return false
+		}
+		if writesParam[fn] == nil {
+			writesParam[fn] = map[int]bool{}
+		}
+		if writesParam[fn][k] {
+			return false
+		}
+		writesParam[fn][k] = true
+		return true
+	}
+	for iter := 0; iter < 20; iter++ {
+		changed := false
+		for _, fn := range p.ModuleFuncs() {
+			if !inModule(fn) {
+				continue
+			}
+			for _, b := range fn.Blocks {
+				for _, ins := range b.Instrs {
+					switch x := ins.(type) {
+					case *ssa.Store:
+						if mark(fn, paramRoot(fn, x.Addr)) {
+							changed = true
+						}
+					case *ssa.MapUpdate:
+						if mark(fn, paramRoot(fn, x.Map)) {
+							changed = true
+						}
+					case ssa.CallInstruction:
+						g := x.Common().StaticCallee()
+						if g == nil || writesParam[g] == nil {
+							continue
+						}
+						for j := range writesParam[g] {
+							if j < len(x.Common().Args) {
+								if mark(fn, paramRoot(fn, x.Common().Args[j])) {
+									changed = true
+								}
+							}
+						}
+					}
+				}
+			}
+		}
+		if !changed {
+			break
+		}
+	}
+	nIndirect := 0
+	for _, fn := range p.ModuleFuncs() {
+		if !inModule(fn) {
+			continue
+		}
+		var ls map[ssa.Instruction]map[*ssa.Global]bool
+		for _, b := range fn.Blocks {
+			for _, ins := range b.Instrs {
+				ci, ok := ins.(ssa.CallInstruction)
+				if !ok {
+					continue
+				}
+				g := ci.Common().StaticCallee()
+				if g == nil || writesParam[g] == nil {
+					continue
+				}
+				for j := range writesParam[g] {
+					if j >= len(ci.Common().Args) {
+						continue
+					}
+					arg := ci.Common().Args[j]
+					gl := globalRoot(arg)
+					if gl == nil {
+						if u, ok := arg.(*ssa.UnOp); ok && u.Op == token.MUL {
+							gl = globalRoot(u.X)
+						}
+					}
+					if gl == nil {
+						continue
+					}
+					if ls == nil {
+						ls = locksets(fn)
+					}
+					nIndirect++
+					acc[gl] = append(acc[gl], gAccess{fn, ins, true, ls[ins], "write through " + g.Name() + "()"})
+				}
+			}
+		}
+	}
+	rc.S.Count("P4.writes-through-callee-parameters", nIndirect)
 	var globals []*ssa.Global
 	for path, sp := range p.SSAPkgs {
 		if !strings.HasPrefix(path, load.Module) || strings.HasSuffix(path, "/genlib2") {
